@@ -27,8 +27,8 @@ The translator is a small partial evaluator over a typed environment:
     it.chain len thub Poly cls next hasattr getattr`, of a function parameter (`op_func`) and of a nested def.
 
 Anything else inside a chosen method is a `TranslationError` (= broken obligation); nothing is skipped silently.
-Local variable names are kept (a renaming gives an alpha-equivalent file and the theorems still hold); comments, docstrings,
-whitespace and the messages of exceptions do not reach the output.
+Local variable names are normalised (x1, x2, ... in order of first assignment; loop targets become `kv`, nested defs are
+inlined), comments, docstrings, whitespace and the messages of exceptions do not reach the output.
 """
 import ast
 import os
@@ -92,11 +92,18 @@ class Cx(object):
         self.mut = False       # the method changes self and returns None
         self.ret = None        # result type
         self.tmp = [0]
+        self.locals = {}       # python local name -> canonical Lean name (x1, x2, ... in order of first assignment)
+
+    def local(self, name):
+        lname(name)
+        if name not in self.locals:
+            self.locals[name] = "x%d" % (len(self.locals) + 1)
+        return self.locals[name]
 
     def child(self):
         c = Cx()
         c.env, c.facts, c.funcs, c.subs, c.lams = dict(self.env), set(self.facts), dict(self.funcs), dict(self.subs), set(self.lams)
-        c.fx, c.mut, c.ret, c.tmp = self.fx, self.mut, self.ret, self.tmp
+        c.fx, c.mut, c.ret, c.tmp, c.locals = self.fx, self.mut, self.ret, self.tmp, self.locals
         return c
 
     def fresh(self):
@@ -744,8 +751,8 @@ def dict_of_subscript_target(t, cx):
     return nm, cx.env[nm], coerce(tr_expr(t.slice, cx), "int", t)
 
 
-def let_name(nm):
-    return {"self._data": "self_data", "self._zero": "self_zero"}.get(nm) or lname(nm)
+def let_name(nm, cx):
+    return {"self._data": "self_data", "self._zero": "self_zero"}.get(nm) or cx.local(nm)
 
 
 def accum_idiom(s, cx):
@@ -847,7 +854,7 @@ def tr_block(stmts, cx, ind, node):
                 fail(s, "assignment of a decided condition")
             if e.binds and not cx.fx:
                 fail(s, "an operation that may raise inside a method the model has as total")
-            n = lname(t.id)
+            n = cx.local(t.id)
             c.env[t.id] = E(n, e.ty)
             for k in [k for k in c.env if k.startswith(t.id + ".")]:
                 del c.env[k]
@@ -856,7 +863,7 @@ def tr_block(stmts, cx, ind, node):
             e = tr_expr(s.value, cx)
             if e.ty != "pair" or e.binds:
                 fail(s, "unpacking of something that is not a (power, coefficient) pair")
-            a, b = lname(t.elts[0].id), lname(t.elts[1].id)
+            a, b = cx.local(t.elts[0].id), cx.local(t.elts[1].id)
             c.env[t.elts[0].id] = E(a, "int")
             c.env[t.elts[1].id] = E(b, "num")
             return ["%slet %s := %s.1" % (ind, a, e.lean), "%slet %s := %s.2" % (ind, b, e.lean)] + tr_block(rest, c, ind, node)
@@ -865,7 +872,7 @@ def tr_block(stmts, cx, ind, node):
             e = coerce(tr_expr(s.value, cx), "dict" if t.attr == "_data" else "val", s)
             if e.binds:
                 fail(s, "effect in an attribute assignment")
-            n = let_name(nm)
+            n = let_name(nm, cx)
             c.env[nm] = E(n, e.ty)
             return ["%slet %s := %s" % (ind, n, e.lean)] + tr_block(rest, c, ind, node)
         tgt = dict_of_subscript_target(t, cx)
@@ -874,7 +881,7 @@ def tr_block(stmts, cx, ind, node):
             V = coerce(tr_expr(s.value, cx), "num", s)
             if V.binds or K.binds:
                 fail(s, "effect in an item assignment")
-            n = let_name(nm)
+            n = let_name(nm, cx)
             c.env[nm] = E(n, "dict")
             return ["%slet %s := ALV.C07.set %s %s %s" % (ind, n, D.lean, K.lean, V.lean)] + tr_block(rest, c, ind, node)
         fail(s, "assignment target")
@@ -886,7 +893,7 @@ def tr_block(stmts, cx, ind, node):
             fail(s, "del target")
         nm, D, K = tgt
         c = cx.child()
-        n = let_name(nm)
+        n = let_name(nm, cx)
         c.env[nm] = E(n, "dict")
         return ["%slet %s := del %s %s" % (ind, n, D.lean, K.lean)] + tr_block(rest, c, ind, node)
     if isinstance(s, ast.If):
@@ -957,7 +964,7 @@ def tr_for(s, rest, cx, ind, node):
         if any(isinstance(x, ast.Name) and x.id == s.target.id for x in ast.walk(s.body[0].value)):
             fail(s, "counted loop uses its counter")
         c = cx.child()
-        v = lname(var)
+        v = cx.local(var)
         c.env[var] = E(v, "dict")
         e = coerce(tr_expr(s.body[0].value, c), "dict", s)
         if e.binds:
@@ -998,13 +1005,13 @@ def tr_for(s, rest, cx, ind, node):
         if not conds:
             return tr_block(rest, cx, ind, node)
         c2 = cx.child()
-        n = let_name(nm)
+        n = let_name(nm, cx)
         c2.env[nm] = E(n, "dict")
         return ["%slet %s := %s.filter (fun %s => !(%s))" % (ind, n, src.lean, lam, conds[0].lean)] + tr_block(rest, c2, ind, node)
     # nested accumulation loops over lists of pairs
     nm, val = tr_state([s], cx, s)
     c = cx.child()
-    n = let_name(nm)
+    n = let_name(nm, cx)
     c.env[nm] = E(n, "dict")
     return ["%slet %s := %s" % (ind, n, val)] + tr_block(rest, c, ind, node)
 
